@@ -1096,6 +1096,8 @@ lydxml_subtree_r(struct lyd_xml_ctx *lydctx, struct lyd_node *parent, struct lyd
         } else {
             assert(lydctx->parse_opts & LYD_PARSE_OPAQ);
             r = lydxml_attrs(xmlctx, &attr);
+            /* the XML parser stays in the middle of the attributes, cannot continue even when collecting several errors */
+            LY_CHECK_ERR_GOTO(r, rc = r, cleanup);
         }
     }
     LY_DPARSER_ERR_GOTO(r, rc = r, lydctx, cleanup);
